@@ -297,6 +297,9 @@ def text_stream(ctx, order, ntrees):
         pe = s.parse_text(text)
         r = M.op('add_expr_text', Text(text))
         res = s.last_result()
+        r_lr = M.op('add_expr_lr', Text(text))          # the two model parsers and dd must agree
+        if r_lr != r:
+            ctx.violation('C05:parsers-differ', f'{text!r}: second add_expr returned {r_lr}, first {r}', M.case())
         ctx.case(('text', order, text), e not in (0, FULL))
         ctx.count('text')
         canon = s.parse(sp)      # the tree of the spaced spelling
@@ -315,12 +318,8 @@ def text_stream(ctx, order, ntrees):
                  'v0 \\A v1', '\\Av0:v0', '\\E v0,:v0', '\\S v0/v1 v0', 'v0 # ^ v1', '~~v0', '!~!v0', 'v0.v1', '.v0', "'v0"]:
         s.lex_text(text)
         s.parse_text(text)
-        M.op('add_expr_text', Text(text))
-        if not s.ok():
-            # dd translates while it parses (see C17): only the outcome is compared
-            s.outcome_only()
-            # the state may now differ from the model's: fresh manager
-            M = Mgr(ctx, None, N, order, session=s)
+        # the LR model (PLY's tables) follows the state also when the text is rejected late
+        M.op('add_expr_lr', Text(text))
         ctx.count('text-adversarial')
     M.check_table('C05:table')
 
